@@ -32,9 +32,9 @@ RULE = ("one fixed list of cases (canonical programs, all corpus files, soups/ta
         "digests were compared")
 ASSUMPTIONS = ["equality of blake2 digests of the JSON-serialised results is equality of results",
                "two scans of one tree may differ in uuid, timestamp and listing order only (as the property states)"]
-BOUNDS = {"quick": dict(seeds=["0", "1", "2", "3", "r"], orders=2, canon=8, hostile=40, trees=3, walk_perms=6),
+BOUNDS = {"quick": dict(seeds=["0", "1", "2", "3", "r"], orders=3, canon=8, hostile=40, trees=3, walk_perms=5),
           "thorough": dict(seeds=[str(i) for i in range(63)] + ["r"], orders=4, canon=40, hostile=300, trees=20, walk_perms=40)}
-MINIMUM = {"quick": {"monitor.digests_compared": 5000, "monitor.tree_reports_compared": 100, "monitor.repeat_checks": 1000, "monitor.isolation_checks": 300},
+MINIMUM = {"quick": {"monitor.digests_compared": 5000, "monitor.tree_reports_compared": 80, "monitor.repeat_checks": 1000, "monitor.isolation_checks": 300},
            "thorough": {"monitor.digests_compared": 500000, "monitor.tree_reports_compared": 5000, "monitor.repeat_checks": 50000}}
 
 
@@ -45,7 +45,7 @@ def shards(tier, seed):
         hs = str((seed * 7919 + 104729) % 4294967295) if s == "r" else s
         for o in range(b["orders"]):
             out.append({"hashseed": hs, "order": o, "env": {"PYTHONHASHSEED": hs}, "canon": b["canon"], "hostile": b["hostile"],
-                        "trees": b["trees"] if o == 0 else 0, "walk_perms": b["walk_perms"]})
+                        "trees": b["trees"], "orders": b["orders"], "walk_perms": b["walk_perms"]})
     return out
 
 
@@ -146,6 +146,8 @@ class WalkPermuter:
 def tree_checks(ctx, shard):
     rng = rng_for(shard["seed"], "c06t")  # same trees in every worker
     for ti in range(shard["trees"]):
+        # every worker builds the same trees (rng depends on the seed only) but each tree is exercised by one order per hash seed
+        skip = ti % shard["orders"] != shard["order"]
         root = os.path.realpath(tempfile.mkdtemp(prefix="vf-c06-"))
         try:
             n = 0
@@ -164,6 +166,9 @@ def tree_checks(ctx, shard):
             twins = [("native/queue.h", "compat/queue.hpp", b"void run(struct q *q) {\n  QUEUE_FOREACH(it, q) {\n    use(it);\n  }\n  done(q);\n}\n"),
                      ("lib/pick.js", "lib/pick.ts", b"function pick(c, a) {\n  return c ? run(a) : {\n    x: 1\n  };\n}\n"),
                      ("a/same.c", "b/same.cc", b"int twice(int a) {\n  WITH_LOCK(m) {\n    a = a * 2;\n  }\n  return a;\n}\n")]
+            if skip:
+                rng.random(), rng.random(), rng.random()
+                continue
             for a, b, data in twins:
                 order_ab = rng.random() < 0.5
                 for rel in ((a, b) if order_ab else (b, a)):
